@@ -21,6 +21,9 @@ import (
 
 type wlPlain struct {
 	Model *Model `json:"model"`
+	// ScribbleFirst: before anything else a graph of this other model is built
+	// and everything its accessors hand out is overwritten.
+	ScribbleFirst *Model `json:"scribble_first,omitempty"`
 }
 
 // ---------------------------------------------------------------------------
@@ -501,7 +504,17 @@ func (c *plainCtx) check(cfg simrt.Config) ([]mismatch, simrt.Stats, string) {
 	}
 	simrt.Begin(cfg)
 	var o plainObs
-	simrt.Run([]func(){func() { o = observePlain(c.pm, c.labels) }})
+	simrt.Run([]func(){func() {
+		if c.wl.ScribbleFirst != nil {
+			if g, err := graph.NewAuthorizationModelGraph(c.wl.ScribbleFirst.toProto()); err == nil {
+				scribblePlain(g)
+				if rev, err := g.Reversed(); err == nil {
+					scribblePlain(rev)
+				}
+			}
+		}
+		o = observePlain(c.pm, c.labels)
+	}})
 	st := simrt.End()
 	if o.panicMsg != "" {
 		add("plain.panic", "panic: %s", o.panicMsg)
@@ -724,11 +737,28 @@ func plainRunOne(b *BatchResult, prop string, seed, run uint64, nRandom int) {
 	if r.chance(2) {
 		m = genSeparatorCollision(r)
 		b.Mix["separator_collision_models"]++
+	} else if r.chance(2) {
+		switch r.intn(3) {
+		case 0:
+			m = genDeepNesting(r)
+		case 1:
+			m = genManyTypes(r)
+		case 2:
+			m = genOddNames(r)
+		}
+		b.Mix["size_depth_name_family_models"]++
 	}
 	if r.chance(25) {
 		addComputedCycle(r, m)
 	}
+	if r.chance(4) && injectAliasing(r, m) {
+		b.Mix["models_with_shared_messages"]++
+	}
 	wl := &wlPlain{Model: m}
+	if r.chance(15) {
+		wl.ScribbleFirst = genModel(r, plainKnobs(r))
+		b.Mix["scribbled_histories"]++
+	}
 	c := newPlainCtx(wl)
 	b.Workloads++
 	b.keySet[hashStr(modelKey(m))] = true
